@@ -1,6 +1,147 @@
-From MV Require Import C06.Model C06.Proofs.
+(* C06 — property theorems only.  Each is closed by [exact] of a lemma proved in
+   C06/Proofs*.v and followed by Print Assumptions.  fx = true is the repaired
+   code (fixes/C06-*.patch), fx = false the code as found.  [live] is the
+   caller's list of blocks handed out and not yet freed (ghost state of [run]).
+   Non-vacuity: C06/Proofs3.v Examples demo_reaches_growth, demo_init_refused,
+   demo_constant. *)
+From MV Require Import C06.Model C06.Proofs C06.Proofs2 C06.Proofs3.
 Local Open Scope Z_scope.
-Theorem mp_ensure_fail_unchanged : forall fx mo s n s',
-  ensure_space fx mo s n = (s', false) -> s' = s.
+
+(* Ring invariant A.2 for every reachable state: for every malloc oracle, every
+   init capacity / block size and every history of alloc / free (of a live
+   block) / ensure_space / set_flag / set_max_delta_cap: cursors in range,
+   free_index = (alloc_index + capacity - used) mod capacity, used = |live|,
+   and the capacity - used ring entries from alloc_index on together with
+   [live] are a permutation of the blocks of all slabs. *)
+Theorem mp_inv_reachable : forall mo c bs s0 ops, uint32 c -> uint32 bs ->
+  init true mo c bs = Some s0 -> Forall op_ok ops ->
+  Inv (fst (run true (s0, []) ops)) (snd (run true (s0, []) ops)).
+Proof. exact inv_reachable. Qed.
+Print Assumptions mp_inv_reachable.
+
+(* ... hence free part and live set partition the blocks of all slabs without
+   duplicates, used + |free part| = capacity = number of blocks. *)
+Theorem mp_ring_partition : forall s live, Inv s live ->
+  NoDup (free_part s ++ live) /\ NoDup (all_blocks s) /\
+  (forall b, In b (all_blocks s) <-> In b (free_part s) \/ In b live) /\
+  zlen (free_part s) + used s = capacity s /\ zlen (all_blocks s) = capacity s /\ used s = zlen live.
+Proof. exact ring_partition. Qed.
+Print Assumptions mp_ring_partition.
+
+(* A block returned by alloc is not live at that moment (never handed out
+   twice), belongs to a slab of the pool, and the invariant continues with it
+   added to the live set; slabs are only ever appended. *)
+Theorem mp_alloc_fresh : forall mo s live s' b, Inv s live -> alloc true mo s = (s', Some b) ->
+  ~ In b live /\ In b (all_blocks s') /\ Inv s' (live ++ [b]) /\ (exists extra, slabs s' = slabs s ++ extra).
+Proof. exact alloc_fresh. Qed.
+Print Assumptions mp_alloc_fresh.
+
+(* Live blocks lie wholly inside the slab they name and their byte ranges are
+   pairwise disjoint (size products are computed in size_t in the repaired
+   code, so no overflow hypothesis is left). *)
+Theorem mp_live_disjoint_inside : forall s live, Inv s live ->
+  (forall b, In b live -> inside s b) /\
+  (forall i j b1 b2, i <> j -> nth_error live i = Some b1 -> nth_error live j = Some b2 ->
+     disjoint (block_size s) b1 b2).
+Proof. exact live_disjoint_inside. Qed.
+Print Assumptions mp_live_disjoint_inside.
+
+(* Growth keeps every slab where it is (slabs only appended: none freed, moved
+   or reallocated, so addresses and contents of live blocks are untouched),
+   keeps the live set out of the free part, and keeps the free blocks in order. *)
+Theorem mp_growth_preserves_live : forall mo s live n s', Inv s live -> uint32 n ->
+  ensure_space true mo s n = (s', true) ->
+  Inv s' live /\
+  (exists extra, slabs s' = slabs s ++ extra) /\
+  (forall k x, nth_error (slabs s) k = Some x -> nth_error (slabs s') k = Some x) /\
+  block_size s' = block_size s /\ used s' = used s /\
+  (exists nb, free_part s' = free_part s ++ nb) /\
+  (forall b, In b live -> ~ In b (free_part s') /\ inside s' b).
+Proof. exact growth_preserves_live. Qed.
+Print Assumptions mp_growth_preserves_live.
+
+(* used / capacity / number of slabs follow the reference counter model
+   (a machine without rings or blocks), and used = |live| throughout. *)
+Theorem mp_counters_refine : forall ops s live, Inv s live -> Forall op_ok ops ->
+  abs (fst (run true (s, live) ops)) = fold_left ref_step ops (abs s) /\
+  used (fst (run true (s, live) ops)) = zlen (snd (run true (s, live) ops)).
+Proof. exact counters_refine. Qed.
+Print Assumptions mp_counters_refine.
+
+(* A pool flagged constant-size never grows (no history without set_flag
+   changes capacity or slabs) ... *)
+Theorem mp_constant_never_grows : forall ops s live, Z.land (flag s) 1 <> 0 -> Forall not_set_flag ops ->
+  capacity (fst (run true (s, live) ops)) = capacity s /\ slabs (fst (run true (s, live) ops)) = slabs s.
+Proof. exact constant_never_grows. Qed.
+Print Assumptions mp_constant_never_grows.
+
+(* ... and reports exhaustion instead. *)
+Theorem mp_constant_reports_exhaustion : forall mo s, Z.land (flag s) 1 <> 0 -> used s = capacity s ->
+  alloc true mo s = (s, None).
+Proof. exact constant_alloc_exhausted. Qed.
+Print Assumptions mp_constant_reports_exhaustion.
+
+(* Automatic growth never exceeds max_delta_cap (when set), never more than
+   doubles, and happens only when the pool is full and not constant-size. *)
+Theorem mp_delta_bounded : forall mo s live s' r, Inv s live -> alloc true mo s = (s', r) ->
+  capacity s <= capacity s' <= 2 * capacity s /\
+  (0 < max_delta_cap s -> capacity s' - capacity s <= max_delta_cap s) /\
+  (capacity s' <> capacity s -> used s = capacity s /\ Z.land (flag s) 1 = 0).
+Proof. exact delta_bounded. Qed.
+Print Assumptions mp_delta_bounded.
+
+(* init is total: for every capacity and block size (uint32) and every malloc
+   behaviour it fails, or yields eff_cap = (capacity or 8) distinct blocks,
+   pairwise disjoint and inside the slab, which eff_cap successive allocs hand
+   out without growth. *)
+Theorem mp_init_total : forall mo c bs, uint32 c -> uint32 bs ->
+  init true mo c bs = None \/
+  exists s, init true mo c bs = Some s /\ Inv s [] /\ capacity s = eff_cap c /\ used s = 0 /\
+    zlen (free_part s) = eff_cap c /\ NoDup (free_part s) /\
+    (forall b, In b (free_part s) -> inside s b) /\
+    (forall b1 b2, In b1 (free_part s) -> In b2 (free_part s) -> b1 <> b2 -> disjoint (block_size s) b1 b2) /\
+    (forall mo', let st := run true (s, []) (repeat (OAlloc mo') (Z.to_nat (eff_cap c))) in
+       zlen (snd st) = eff_cap c /\ NoDup (snd st) /\ slabs (fst st) = slabs s /\
+       forall b, In b (snd st) -> inside s b).
+Proof. exact init_total. Qed.
+Print Assumptions mp_init_total.
+
+(* Allocation failure (malloc refusal, constant size, uint32 limit) leaves the
+   pool unchanged and returns NULL / false — both code variants. *)
+Theorem mp_alloc_fail_unchanged : forall fx mo s s', alloc fx mo s = (s', None) -> s' = s.
+Proof. exact alloc_fail_unchanged. Qed.
+Print Assumptions mp_alloc_fail_unchanged.
+
+Theorem mp_ensure_fail_unchanged : forall fx mo s n s', ensure_space fx mo s n = (s', false) -> s' = s.
 Proof. exact ensure_space_fail_unchanged. Qed.
 Print Assumptions mp_ensure_fail_unchanged.
+
+(* destroy frees each slab exactly once. *)
+Theorem mp_destroy_each_slab_once : forall s,
+  NoDup (destroy s) /\ (forall k, In k (destroy s) <-> 0 <= k < zlen (slabs s)).
+Proof. exact destroy_each_slab_once. Qed.
+Print Assumptions mp_destroy_each_slab_once.
+
+(* ---- the code as found violates the property (witnesses) ---- *)
+(* ensure_space on a completely free pool: a live block is handed out twice. *)
+Theorem mp_orig_inv_refuted : exists s0,
+  init false ok_oracle 1 16 = Some s0 /\ Forall op_ok grow_empty_history /\
+  ~ NoDup (snd (run false (s0, []) grow_empty_history)) /\
+  (forall s1, init true ok_oracle 1 16 = Some s1 -> NoDup (snd (run true (s1, []) grow_empty_history))).
+Proof. exact orig_inv_refuted. Qed.
+Print Assumptions mp_orig_inv_refuted.
+
+(* uint32 size product: init succeeds with a 0 byte slab and a block outside it. *)
+Theorem mp_orig_init_refuted : exists s,
+  uint32 2 /\ uint32 (2 ^ 31) /\ init false ok_oracle 2 (2 ^ 31) = Some s /\
+  slabs s = [(0, 2)] /\ In (0, 2 ^ 31) (ring s) /\ ~ inside s (0, 2 ^ 31) /\
+  (forall s1, init true ok_oracle 2 (2 ^ 31) = Some s1 -> slabs s1 = [(2 ^ 32, 2)]).
+Proof. exact orig_init_refuted. Qed.
+Print Assumptions mp_orig_init_refuted.
+
+(* capacity + delta wrapping in uint32: alloc on a full pool leaves used = capacity + 1. *)
+Theorem mp_orig_alloc_cap_wrap_refuted : forall mo s,
+  0 < capacity s < two32 -> used s = capacity s -> two32 <= capacity s + delta_of s ->
+  alloc false mo s = take s /\ used (fst (alloc false mo s)) = capacity (fst (alloc false mo s)) + 1.
+Proof. exact orig_alloc_cap_wrap_refuted. Qed.
+Print Assumptions mp_orig_alloc_cap_wrap_refuted.
